@@ -336,9 +336,13 @@ def explore(ctx):
     cases = list(gen(rng, ctx.tier))
     dis_lines, reals = [], []
     recent = {dev: [] for dev in DEVNAMES}      # the last cases run on each long-lived bench (history for replays)
-    for dev, pc, labels, op, b1, b2 in cases:
+    for ci, (dev, pc, labels, op, b1, b2) in enumerate(cases):
         bench, asm = benches[dev]
         dr, ar = real_compose(bench, asm, dev, pc, labels, op, b1, b2)
+        # the table as the parser holds it NOW, in its real order: a table edited in place keeps the positions of
+        # the names it already had (as after add_label), and with two names for one address the first one is shown
+        labels = tuple((k, v) for k, v in bench.parser.labels.items())
+        cases[ci] = (dev, pc, labels, op, b1, b2)
         earlier = list(recent[dev])
         recent[dev] = (recent[dev] + [[dev, pc, list(map(list, labels)), op, b1, b2]])[-3:]
         reals.append((dr, ar))
